@@ -531,3 +531,14 @@ Theorem C15_leaf_unwind_frame_offset : forall g r,
   Leaf.L_exception_UnwindInfo_frame_offset (Dirs.u8at g (Mapping.r_off r + Layout.UNWIND_INFO_FrameRegisterOffset_off)) = Dirs.uw_frame_offset g r.
 Proof. exact LeafDirs.uw_frame_offset_agrees. Qed.
 Print Assumptions C15_leaf_unwind_frame_offset.
+
+(* the source places the binders of the generated leaf definitions stand for (third audit, F2) *)
+From Coq Require Import List String.
+Import ListNotations.
+Theorem C15_leaf_reads_dirs :
+  Leaf.L_exception_UnwindInfo_version_args = ["self.image.VersionFlags : u8"%string] /\
+  Leaf.L_exception_UnwindInfo_flags_args = ["self.image.VersionFlags : u8"%string] /\
+  Leaf.L_exception_UnwindInfo_frame_register_args = ["self.image.FrameRegisterOffset : u8"%string] /\
+  Leaf.L_exception_UnwindInfo_frame_offset_args = ["self.image.FrameRegisterOffset : u8"%string].
+Proof. exact LeafDirs.leaf_reads_dirs. Qed.
+Print Assumptions C15_leaf_reads_dirs.
